@@ -16,11 +16,7 @@ Definition sstep (st : option N) (e : kv) : option (option N) :=
   let '(k, v) := e in
   if list_eqb k K_timeout then option_map Some (parse_uint 32 v) else Some st.
 
-Fixpoint sfold (st : option N) (l : kvs) : option (option N) :=
-  match l with
-  | [] => Some st
-  | e :: r => match sstep st e with Some st' => sfold st' r | None => None end
-  end.
+Definition sfold := ofold sstep.
 
 Definition session_unmarshal_with (order : order_t) (s : list N) : res session :=
   match cut SEMI s with
@@ -37,7 +33,10 @@ Definition session_unmarshal_with (order : order_t) (s : list N) : res session :
   end.
 
 Definition session_marshal (h : session) : list N :=
-  s_id h ++ match s_timeout h with Some t => [SEMI] ++ K_timeout ++ [EQ] ++ fmt_uint t | None => [] end.
+  s_id h ++ match s_timeout h with
+            | Some t => [SEMI] ++ render_items [SEMI] [(K_timeout, VPlain (fmt_uint t))]
+            | None => []
+            end.
 
 (* ---- RTP-Info ---- *)
 Record rtpinfo_entry := mkEntry { e_url : list N; e_seq : option N; e_ts : option N }.
@@ -51,11 +50,7 @@ Definition rstep (st : rstate) (e : kv) : option rstate :=
   else if list_eqb k K_rtptime then option_map (fun x => (mkEntry (e_url en) (e_seq en) (Some x), ur)) (parse_uint 32 v)
   else Some st.
 
-Fixpoint rfold (st : rstate) (l : kvs) : option rstate :=
-  match l with
-  | [] => Some st
-  | e :: r => match rstep st e with Some st' => rfold st' r | None => None end
-  end.
+Definition rfold := ofold rstep.
 
 Definition entry_unmarshal_with (order : order_t) (part : list N) : res rtpinfo_entry :=
   match kv_parse (trim_left_sp part) SEMI with
@@ -71,10 +66,11 @@ Definition entry_unmarshal_with (order : order_t) (part : list N) : res rtpinfo_
 Definition rtpinfo_unmarshal_with (order : order_t) (s : list N) : res (list rtpinfo_entry) :=
   all_ok (map (entry_unmarshal_with order) (split_on COMMA s)).
 
-Definition entry_marshal (e : rtpinfo_entry) : list N :=
-  join [SEMI] ([K_url ++ [EQ] ++ e_url e]
-    ++ opt_item (e_seq e) (fun x => K_seq ++ [EQ] ++ fmt_uint x)
-    ++ opt_item (e_ts e) (fun x => K_rtptime ++ [EQ] ++ fmt_uint x)).
+Definition entry_kvitems (e : rtpinfo_entry) : list item :=
+  [(K_url, VPlain (e_url e))]
+  ++ opt_it (e_seq e) (fun x => (K_seq, VPlain (fmt_uint x)))
+  ++ opt_it (e_ts e) (fun x => (K_rtptime, VPlain (fmt_uint x))).
+Definition entry_marshal (e : rtpinfo_entry) : list N := render_items [SEMI] (entry_kvitems e).
 
 Definition rtpinfo_marshal (h : list rtpinfo_entry) : list N := join [COMMA] (map entry_marshal h).
 
